@@ -321,7 +321,7 @@ def nested_requests(spec, per_seq=None, rng=None):
 SHARED_SPEC = {
     "name": "d", "attrs": {"title": "shared", "levels": {"__nd__": ["f8", [1.5, 2.5, 3.5]]}, "history": ["a", "b"]},
     "vars": [
-        ["base", "buf", "i4", [12], {"valid_range": {"__nd__": ["i4", [0, 11]]}, "flags": [0, 1], "meta": {"k": [1, 2]}}],
+        ["base", "buf", "i4", [12], {"valid_range": {"__nd__": ["i4", [11, 0]]}, "flags": [1, 0], "meta": {"k": [2, 1]}}],
         ["view", "ev", "buf", 0, 2],
         ["view", "od", "buf", 1, 3],
         ["grid", "g1", {"long_name": "one"}, "i2", [["x", 2], ["y", 3]]],
@@ -350,7 +350,7 @@ def rand_spec(rng):
         if r < 0.7:
             return {"units": "m"}
         if r < 0.8:
-            return {"units": "m", "valid_range": {"__nd__": ["f4", [0.5, 9.5]]}, "flags": [0, 1]}
+            return {"units": "m", "valid_range": {"__nd__": ["f4", [9.5, 0.5]]}, "flags": [1, 0]}
         return {"units": "m", "meta": {"k": 1, "l": [1, 2]}, "flags": [0, 1]}
 
     def base(depth):
